@@ -17,6 +17,58 @@ PROFILES = [
 ]
 
 
+def horizon_churn(g):
+    """prologue: many readers begin and end WITHOUT commits in between (they share horizons; holders of one horizon
+    come and go in every order), then the keys are overwritten / deleted, flushed and compacted to the bottom level,
+    and every reader that is still open reads everything"""
+    rng = g.rng
+    keys = g.keys[:4]
+    t = g.next_tx
+    g.emit("e2 begin %d rw" % t)
+    for k in keys:
+        g.emit("e2 set %d %s %s" % (t, k, g.val()))
+    g.emit("e2 commit %d" % t)
+    t += 1
+    if rng.random() < 0.7:
+        g.emit("e2 flush")
+    readers = []
+    for rnd in range(rng.randint(1, 3)):
+        for _ in range(rng.randint(3, 9)):
+            if readers and rng.random() < 0.45:
+                r = readers.pop(rng.randrange(len(readers)))
+                g.emit("e2 drop %d" % r)
+                g.tx.pop(r, None)
+            elif len(readers) < 5:
+                g.emit("e2 begin %d ro" % t)
+                g.tx[t] = dict(mode="ro", closed=False, curs=set())
+                readers.append(t)
+                if rng.random() < 0.3:
+                    g.emit("e2 get %d %s" % (t, rng.choice(keys)))
+                t += 1
+        g.emit("e2 begin %d rw" % t)
+        for k in keys:
+            r_ = rng.random()
+            if r_ < 0.6:
+                g.emit("e2 set %d %s %s" % (t, k, g.val()))
+            elif r_ < 0.8:
+                g.emit("e2 del %d %s" % (t, k))
+        g.emit("e2 commit %d" % t)
+        t += 1
+        g.emit("e2 flush")
+        for lvl in range(g.lc - 1):
+            g.emit("e2 compact %d" % lvl)
+        for r in readers:
+            for k in keys:
+                g.emit("e2 get %d %s" % (r, k))
+            if rng.random() < 0.5:
+                g.emit("e2 scan %d - ~ %s" % (r, rng.choice("fb")))
+    g.next_tx = t
+
+
+PROFILES.append(dict(name="horizon-churn", opts=["lc=2", "lc=3", "lc=2,bs=64,ips=64,ri=2", "lc=1"], weights=W, max_tx=7, keys=["61", "62", "6162", "63", "6100"],
+                     prologue=horizon_churn, length=(5, 40)))
+
+
 def nontrivial(lines, exp):
     """a flush or compaction happened while a reader older than some later commit was open and read afterwards"""
     open_r = {}
